@@ -1049,6 +1049,33 @@ def check_sigma_theta_list(rng, angles, pick):
     return None
 
 
+def check_sigma_theta_scalar(rng, angles):
+    """sigma / sigma_dB at ONE incidence angle of an active result holding several (nadir included), given as theta= or theta_inc=: a
+    single value per polarisation pair, 4 pi cos(theta) times the stored intensity at that angle"""
+    from smrt.core import sensor as cs
+    s = cs.active(13e9, list(angles))
+    res = stub_result(s, rng)
+    for t in angles:
+        for how in ("theta", "theta_inc"):
+            for fn in ("sigma", "sigma_dB"):
+                try:
+                    got = getattr(res, fn)(polarization_inc="V", polarization="V", **{how: t})
+                except Exception as e:  # noqa
+                    return ("sigma:theta-scalar", f"{fn}({how}={t!r}) on an active result with incidence angles {list(angles)} raises {type(e).__name__}: "
+                            f"{str(e)[:80]}", "one value")
+                want = res.data.sel(theta_inc=t, drop=True)
+                if "theta" in want.dims:
+                    want = want.sel(theta=t, drop=True)
+                want = float(want.sel(polarization_inc="V", polarization="V").values) * (4 * math.pi * math.cos(math.radians(float(t))))
+                if fn == "sigma_dB":
+                    want = 10 * math.log10(max(want, 1e-20))      # the documented floor of the dB conversion
+                g = np.asarray(got, dtype=float).ravel()
+                if g.size != 1 or not abs(g[0] - want) <= 1e-9 * max(1.0, abs(want)):
+                    return ("sigma:theta-scalar", f"{fn}({how}={t!r}, VV) on an active result with incidence angles {list(angles)} = {g.tolist()}",
+                            f"the single value {want!r}")
+    return None
+
+
 def check_subsensor_wavelength(freqs):
     """every sensor obeys frequency x wavelength = c - also the single-frequency sensors a multi-frequency one is split into for the
     individual simulations (Sensor.iterate)"""
@@ -1081,6 +1108,9 @@ def check_sensorlist_order(channels):
 def check_custom(fname, freqs):
     from smrt.inputs import sensor_list as sl
     s = getattr(sl, fname)(frequency=list(freqs))
+    if len({int(f / 1e9) for f in freqs}) == len(set(freqs)) and len({float(m["frequency"]) for m in s.channel_map.values()}) != len(set(freqs)):
+        return ("common_conical_pmw:custom-frequency-name", f"sensor_list.{fname}(frequency={list(freqs)}) keeps only the frequencies "
+                f"{sorted({float(m['frequency']) for m in s.channel_map.values()})}", "every frequency of the list")
     for ch, m in s.channel_map.items():
         g = m["frequency"] / 1e9
         ok = ch[-1] == m["polarization"] and ch[:-1] in ("%02i" % g, "%02i" % round(g), "%g" % g)
@@ -1208,6 +1238,9 @@ def _oracle(ctx, hints, effort):
     for angles, pick in (([20., 30., 40.], [20., 30., 40.]), ([20., 30., 40.], [20., 40.]), ([15., 25., 35., 45.], [45., 15.])):
         evals += 1
         record(lambda: check_sigma_theta_list(rng, angles, pick), {"kind": "sigma_theta_list", "angles": angles, "pick": pick})
+    for angles in ([0., 35.], [25., 0., 40.], [20., 30.]):
+        evals += 1
+        record(lambda: check_sigma_theta_scalar(rng, angles), {"kind": "sigma_theta_scalar", "angles": angles})
     for fr in ([10.65e9, 36.5e9], [5e9, 19e9, 37e9]):
         evals += 1
         record(lambda: check_subsensor_wavelength(fr), {"kind": "subsensor_wavelength", "freqs": fr})
@@ -1225,7 +1258,8 @@ def _oracle(ctx, hints, effort):
         record(lambda: check_saveload(stub_result(s, rng, (("snowpack", labels),))), {"kind": "saveload", "sensor": s.name, "labels": labels})
     # custom frequency names
     for fname in ("amsre", "amsr2", "cimr"):
-        for fr in ([[10e9]] if effort == "routine" else CUSTOM_FREQS):
+        # (the shipped channel names themselves mix truncation - 06 for 6.925 GHz - and rounding - 19 for 18.7 GHz: both are "the GHz value")
+        for fr in ([[10e9], [6.925e9, 7.3e9, 10.65e9]] if effort == "routine" else [[6.925e9, 7.3e9, 10.65e9]] + CUSTOM_FREQS):
             evals += 1
             record(lambda: check_custom(fname, fr), {"kind": "custom", "ctor": fname, "frequency": fr})
     # sensors
@@ -1304,6 +1338,8 @@ def _replay(inp, rp=None):
         r = check_concat_differing(rng, inp["sets"], inp["active"])
     elif k == "sigma_theta_list":
         r = check_sigma_theta_list(rng, inp["angles"], inp["pick"])
+    elif k == "sigma_theta_scalar":
+        r = check_sigma_theta_scalar(rng, inp["angles"])
     elif k == "subsensor_wavelength":
         r = check_subsensor_wavelength(inp["freqs"])
     elif k == "sensorlist_order":
